@@ -133,6 +133,14 @@ bool index_read(zckCtx *zck, char *data, size_t size, size_t max_length) {
             return false;
         }
         new->length = chunk_length;
+        /* An uncompressed chunk is stored as is, and a chunk without stored
+         * bytes can't have any data */
+        if((zck->comp.type == ZCK_COMP_NONE &&
+            new->length != new->comp_length) ||
+           (new->comp_length == 0 && new->length != 0)) {
+            set_fatal_error(zck, "Chunk %i has inconsistent sizes", count);
+            return false;
+        }
         new->zck = zck;
         new->valid = 0;
         new->number = count;
